@@ -128,6 +128,22 @@ impl GenerateConfig {
 
     /// Load configuration from Tauri configuration file
     pub fn from_tauri_config<P: AsRef<Path>>(path: P) -> Result<Option<Self>, ConfigError> {
+        match Self::from_tauri_config_unvalidated(path)? {
+            Some(config) => {
+                config.validate()?;
+                Ok(Some(config))
+            }
+            None => Ok(None),
+        }
+    }
+
+    /// Load configuration from Tauri configuration file without validating it.
+    ///
+    /// For callers that still apply overrides (command-line flags) and validate the
+    /// effective configuration afterwards.
+    pub fn from_tauri_config_unvalidated<P: AsRef<Path>>(
+        path: P,
+    ) -> Result<Option<Self>, ConfigError> {
         let content = fs::read_to_string(path)?;
         let tauri_config: serde_json::Value = serde_json::from_str(&content)?;
 
@@ -184,7 +200,6 @@ impl GenerateConfig {
                     config.force = Some(force);
                 }
 
-                config.validate()?;
                 return Ok(Some(config));
             }
         }
